@@ -761,7 +761,7 @@ func runC18(a runArgs) error {
 	e := NewEmitter("C18", "Monitor.Run")
 	e.ShardSize = 120
 	e.Preamble = "From GoCoap Require Import Monitor.Model."
-	e.Rule = "event histories (message received / pong for generation g / tick at virtual time t, spacings at the period -200ms,-1ns,0,+1ns,+200ms, several ticks per period, retry limits 0-3) applied to the real inactivity.Monitor / KeepAlive (component drivers) and to a udp client Conn over an in-memory session wired by options.WithInactivityMonitor / WithKeepAlive (ticks through Conn.CheckExpirations and pkg/connections); distinct = distinct history; non-trivial = the monitor acted at least once (ping or close) and at least one message or pong was received"
+	e.Rule = "event histories (message received / pong for generation g / tick at virtual time t, spacings at the period -200ms,-1ns,0,+1ns,+200ms, several ticks per period, retry limits 0-3) applied to the real inactivity.Monitor / KeepAlive (component drivers mon, conns, ka, kaconns), to a udp client Conn over an in-memory session (udp, udpconns), to a tcp client Conn over a pipe (tcp) and to the udp server (srv: handleInactivityMonitors + datagram path getConn), all wired by options.WithInactivityMonitor / WithKeepAlive; distinct = distinct history; non-trivial = the monitor acted at least once (ping or close) and at least one message or pong was received"
 	if a.only != "" {
 		f := strings.Fields(a.only)
 		switch f[0] {
@@ -839,6 +839,10 @@ var c18Corpus = []string{
 	"hist udp 1000000000 0 1 true T1000000001,R1500000000.0,T2500000001",
 	"hist udp 1000000000 0 1 true T1000000001,T2000000002",
 	"hist udp 1000000000 0 2 true T1000000001,P1@1200000000.0,T2200000001,T2300000000,T2400000000",
+	"hist tcp 1000000000 0 1 true T1000000001,R1500000000.0,T2500000001,P2@2600000000.0,T3600000001,P1@3600000002.0,T4600000003,T4600000004",
+	"hist srv 1000000000 0 1 true T1000000001,D1500000000,T2500000001",
+	"hist srv 1000000000 0 0 false D987000000,D1977000001",
+	"hist ka 1000000000 0 1 true T1000000001,R1500000000.0,T2500000001,B1,T2600000000,T2700000000",
 	"hist mon 1000000000 0 0 false T1000000000,T1000000001",
 	"hist conns 1000000000 0 0 false T999999999,R999999999.0,T1999999999,T2000000000,T3000000000",
 }
